@@ -601,7 +601,9 @@ Record hcase := mkCase {
   k_cover : list (list (list Z));     (* per sample, per record: PS tags of tagged alignments spanning it *)
   k_rsets : list (list Z);            (* per alignment: PS of the original phased calls it spans *)
   k_mav : bool;                       (* false = --no-mav *)
-  k_nalts : list Z                    (* per record: number of ALT alleles *)
+  k_nalts : list Z;                   (* per record: number of ALT alleles *)
+  k_unsel : list nat                  (* samples whose reads the (last) haplotag run must have left without tags
+                                         (not selected by --sample) *)
 }.
 Definition sample_calls (t : table) (s : nat) : list call := map (fun r => nth s (v_calls r) dcall) t.
 Definition same_positions (a b : table) : bool := list_eqb (map v_pos a) (map v_pos b).
@@ -619,10 +621,18 @@ Definition k_aligned (k : hcase) : bool :=
   forallb (fun s => (length (nth s (k_cover k) []) =? length (k_inp k))%nat) (k_samples k).
 
 Definition l1_proviso (k : hcase) : bool := forallb one_set (k_rsets k).
+Definition k_selected (k : hcase) : list nat :=
+  filter (fun s => negb (existsb (Nat.eqb s) (k_unsel k))) (k_samples k).
 Definition l1_order (k : hcase) : bool :=
-  k_aligned k && (negb (l1_proviso k) || forallb (fun s => forallb order_one (k_rows k s)) (k_samples k)).
+  k_aligned k && (negb (l1_proviso k) || forallb (fun s => forallb order_one (k_rows k s)) (k_selected k)).
 Definition l1_ps (k : hcase) : bool :=
-  k_aligned k && (negb (l1_proviso k) || forallb (fun s => forallb ps_one (k_rows k s)) (k_samples k)).
+  k_aligned k && (negb (l1_proviso k) || forallb (fun s => forallb ps_one (k_rows k s)) (k_selected k)).
+(* histories: a sample that the last haplotag run did not select has no tagged read any more (tags of an
+   earlier run must have been removed), so haplotagphase phases nothing for it *)
+Definition l1_unselected (k : hcase) : bool :=
+  k_aligned k &&
+  forallb (fun s => forallb (fun io => negb (newly_phased (fst io) (snd io)))
+                            (combine (sample_calls (k_inp k) s) (sample_calls (k_out k) s))) (k_unsel k).
 (* clause 2, split by the class of the pre-phased call *)
 Definition l1_prephased_class (cls : Z) (k : hcase) : bool :=
   k_aligned k && forallb (fun s => prephased_kept_class cls (k_prows k s)) (k_samples k).
@@ -651,7 +661,8 @@ Definition l2_cons (rl : rule) (k : hcase) : bool :=
    semantics), and every read is an error-free copy of one haplotype inside one phase set *)
 Definition k_phi (k : hcase) (s : nat) : Z -> option (Z * Z * Z) := phi_of (sample_view (k_orig k) s).
 Definition l2_tags (k : hcase) : bool :=
-  forallb (fun s => forallb (tagged_by (k_phi k s)) (nth s (k_reads k) [])) (k_samples k).
+  forallb (fun s => forallb (tagged_by (k_phi k s)) (nth s (k_reads k) [])) (k_selected k) &&
+  forallb (fun s => forallb (fun r => (r_hp r =? -1) && (r_ps r =? -1)) (nth s (k_reads k) [])) (k_unsel k).
 Definition hyp_error_free (k : hcase) : bool :=
   forallb (fun s => forallb (error_free (k_phi k s)) (nth s (k_reads k) [])) (k_samples k).
 Definition hyp_sites (k : hcase) : bool :=
